@@ -86,6 +86,10 @@ def unit_targets(fns_t, fns_f):
     if et is None: raise ParseError("impl TryFrom<Unit> for PositionDerivative not found")
     out.append({"name": "g_TryFrom_U_P", "entry": et, "entry_f": ef, "self_type": "PositionDerivative", "opcode": 28, "args": [(et["params"][0], "Unit")],
                 "runner": "try", "what": "impl TryFrom<Unit> for PositionDerivative", "dual": True})
+    et, ef = both("Command", "try_from", "TryFrom", ["Quantity"])
+    if et is None: raise ParseError("impl TryFrom<Quantity> for Command not found")
+    out.append({"name": "g_TryFrom_Q_C", "entry": et, "entry_f": ef, "self_type": "Command", "opcode": 27, "args": [(et["params"][0], "Quantity")],
+                "runner": "try", "what": "impl TryFrom<Quantity> for Command", "dual": True})
     for (ty, fn), (op, runner, argt, has_self) in UNIT_INH.items():
         et, ef = both(ty, fn, None, None)
         if et is None: raise ParseError("%s::%s not found" % (ty, fn))
@@ -210,6 +214,15 @@ Local Open Scope Z_scope.
 Section OpsTable.
 Context {F : Type} {NF : Num F}.
 Variable c : cfg.
+(* the functions whose bodies are selected by the dimension-check cfg (Proofs/MiniRustEmb.v unit_tac, extended to quantities and to
+   the conversion Quantity -> Command) *)
+Ltac unit_tac2 c :=
+  destruct c as [[] ?]; intros; split_ops; repeat match goal with x : unit_ |- _ => destruct x end;
+  repeat match goal with x : @quantity _ |- _ => destruct x as [? []] end;
+  unfold run_val, run_self, run_unit, run_try, run_with; cbn;
+  repeat (progress unfold uadd, usub, assert_ok, assert_not_ok, eq_assume_true, eq_assume_false, umul, udiv, unew, ueqb, unit_of_pd, pd_of_unit, c_of_q, bind; cbn [chk mm sec qu qv]);
+  cbn;
+  repeat (match goal with |- context [Z.eqb ?a ?b] => destruct (Z.eqb a b) end; cbn); try reflexivity.
 """
 
 
@@ -223,7 +236,7 @@ def theorems(tg):
         ops = "; ".join("%s %s" % (TY[ty][1], v) for v, (_, ty) in zip(vs, t["args"]))
         thm = "ops_" + t["name"][2:]
         names.append(thm)
-        proof = "unit_tac c." if t.get("dual") else "ops_tac."
+        proof = "unit_tac2 c." if t.get("dual") else "ops_tac."
         out.append("(* %s *)\nTheorem %s %s :\n  run_%s c (%s c) [%s] = apply_op c %d [%s].\nProof. %s Qed.\n"
                    % (t["what"], thm, binders, t["runner"], t["name"], env, t["opcode"], ops, proof))
     out.append("End OpsTable.\n")
